@@ -1,19 +1,20 @@
 #!/bin/bash
-# run_seed.sh <seed-dir-name e.g. C09-A> [check id (default: property of the seed)] [tier]
-# applies the seeded patch to /repo, runs the check, ALWAYS reverts /repo, records detect_<check>.json
-S=$1; D=/verif/seeded/$S; ID=${2:-${S%%-*}}; TIER=${3:-quick}
-cd /repo || exit 2
-git status --short | grep -q . && { echo "/repo dirty, refusing"; exit 2; }
-git apply $D/patch.diff || { echo "patch failed"; exit 2; }
-trap 'git -C /repo checkout -q -- .' EXIT
+# run_seed.sh <patch dir (contains patch.diff)> <check id> [tier]
+# Applies the seeded patch in a throw-away worktree of /repo (never in /repo itself), runs the check
+# against that tree (SYMX_REPO), removes the worktree, and writes <patch dir>/detect_<check>.json
+D=$(readlink -f $1); ID=$2; TIER=${3:-quick}
+TAG=$(basename $(dirname $D))_$(basename $D)_$ID
+WT=/tmp/wt_seed_$TAG; OUTD=/tmp/seedout_$TAG
+rm -rf $OUTD; mkdir -p $OUTD
+git -C /repo worktree add --detach $WT HEAD >/dev/null 2>&1 || { echo "worktree failed"; exit 2; }
+trap 'git -C /repo worktree remove --force '$WT' >/dev/null 2>&1; rm -rf '$OUTD EXIT
+git -C $WT apply $D/patch.diff || { echo "patch failed"; exit 2; }
 cd /verif
 t0=$(date +%s)
-./run check $ID --tier $TIER > /tmp/seedrun_$S_$ID.log 2>&1; rc=$?
+SYMX_REPO=$WT SYMX_OUT=$OUTD ./run check $ID --tier $TIER > $OUTD/log 2>&1; rc=$?
 t1=$(date +%s)
-nviol=$(grep -c '^VIOLATION' /tmp/seedrun_$S_$ID.log)
-first=$(grep -m1 '^VIOLATION' /tmp/seedrun_$S_$ID.log | cut -c1-300 | sed 's/"/\\"/g')
-herr=$(grep -m1 '^HARNESS-ERROR' /tmp/seedrun_$S_$ID.log | cut -c1-300 | sed 's/"/\\"/g' | tr -d '\n')
+nviol=$(grep -c '^VIOLATION' $OUTD/log)
+first=$(grep -m1 '^VIOLATION' $OUTD/log | cut -c1-300 | sed 's/"/\\"/g')
+herr=$(grep -m1 '^HARNESS-ERROR' $OUTD/log | cut -c1-300 | sed 's/"/\\"/g' | tr -d '\n\\')
 printf '{"check": "%s", "tier": "%s", "exit_code": %d, "violation_lines": %d, "first_violation": "%s", "first_harness_error": "%s", "wall_s": %d}\n' $ID $TIER $rc $nviol "$first" "$herr" $((t1-t0)) > $D/detect_$ID.json
 cat $D/detect_$ID.json
-rm -f /verif/replays/*
-git -C /verif checkout -q -- evidence 2>/dev/null
